@@ -58,6 +58,24 @@ fn deviate(cur: Option<&B>, dev: &str) -> Option<B> {
             B::List(l)
         }
         "text-nonutf8" => B::Bytes(vec![0xff, 0xfe, 0x00]),
+        d if d.starts_with("utf8@") || d.starts_with("utf8w@") || d.starts_with("ascii@") => {
+            let n: usize = d.rsplit('@').next().and_then(|x| x.parse().ok()).unwrap_or(1);
+            let mut t = String::new();
+            if d.starts_with("ascii@") {
+                t.extend((0..n).map(|i| (b'a' + (i % 26) as u8) as char));
+            } else if d.starts_with("utf8@") {
+                // a 2-byte character occupying bytes n-1 and n: byte offset n is not a character boundary
+                t.extend((0..n.saturating_sub(1)).map(|_| 'x'));
+                t.push('é');
+                t.extend((0..40).map(|_| 'y'));
+            } else {
+                t.extend((0..n.saturating_sub(2)).map(|_| 'x'));
+                t.push('€');
+                t.push('𝄞');
+                t.extend((0..10).map(|_| 'z'));
+            }
+            B::Bytes(t.into_bytes())
+        }
         _ => return cur.cloned(),
     })
 }
@@ -85,6 +103,18 @@ fn apply(d: &mut B, path: &[String], dev: &str) {
             }
         }
     } else if let Some(inner) = d.get_mut(&path[0]) {
+        // an element of a list (the error list [code, text]): path element = 1-based index
+        if let (B::List(l), Ok(i)) = (&mut *inner, path[1].parse::<usize>()) {
+            if i >= 1 && i <= l.len() {
+                match deviate(Some(&l[i - 1].clone()), dev) {
+                    None => {
+                        l.remove(i - 1);
+                    }
+                    Some(nv) => l[i - 1] = nv,
+                }
+            }
+            return;
+        }
         apply(inner, &path[1..], dev);
     }
 }
